@@ -995,7 +995,7 @@ static Target t = {
     "C19",
     "random: source = mpt_iterator_create(description from the grammar lin|linear / fact|factor|fac / range / value list with spacing, case and number-format variants; "
     "dubious (zero count, 2^32 count, non-finite or reversed bounds, factor <= 0), mutated (1-3 character edits) and malformed descriptions) | mpt_iterator_linear | "
-    "mpt_iterator_boundary | mpt_iterator_values | mpt_iterator_poly | mpt_iterator_profile over a drawn grid | mpt_iterator_string | mpt_meta_buffer | mpt_meta_arguments; "
+    "mpt_iterator_boundary | mpt_iterator_values | mpt_iterator_poly | mpt_iterator_profile over a drawn grid | mpt_iterator_string | mpt_meta_buffer | mpt_meta_arguments | the vararg argument iterator of mpt_process_vararg (1-5 arguments of type d/f/i/u, driven inside the handler); "
     "counts 0,1,2,3,.. and 2^32-1, bounds incl. 1e300, denormals, inf, nan; then a drawn interleaving (<= 160 calls) of value / advance / value+advance / reset / clone / "
     "mpt_iterator_consume / documented loop over the source and up to 3 clones (text argument iterator: three reads in four are followed by a second read of the same element "
     "with another target type, fitting or not, before the advance), closed by walk-to-end, reset, second walk and two reads/advances past the end; "
